@@ -31,6 +31,18 @@ recipients `<rcpt>` is `<A>+<B>` and `<changed>` is `<cA>+<cB>`: EACH recipient 
 must reject. A bound vector-valued leaf (`Graph.vectors`) must be bound by a per-row family
 (`Pred.perRow`): the prediction "rejected, sender blamed" for a paired shift inside such a vector
 rests on the per-component form of the check (`Props/C04.lean`, `detect_boldyreva_component`).
+
+COHERENT deviations (harness/c04_coh.go)
+
+    C04 coherent <proto> <cfg> <kind> <deviator> <lo|mid|hi> <changed> <ids> => (same rhs)
+
+the deviator's messages are mutually consistent (substituted input, consistent dealing of another
+value, changed claim about the past with everything derived from it). `<kind>` must be declared in
+`Graph.coherent`; verdict: sanity as above; a released output that is invalid for the ORIGINAL public
+key ⇒ BAD `bad-output-released`; nobody honest (nor the aggregator) rejects ⇒ BAD
+`accepted-coherent-deviation` (the predicates of `caughtBy` are the ones that must have fired), unless
+`<changed>` is 0: no message of the deviator differs from the honest run (the substituted input is
+not used) — then everybody may accept and the outputs must be valid.
 -/
 namespace BronVerif.Drive.C04
 open BronVerif BronVerif.Drive BronVerif.CheckGraph
@@ -153,6 +165,29 @@ def handleTamper (g : Graph) (round sender : Nat) (rcpt path op changed : String
     else mustReject ("bound leaf " ++ l.path ++ " (" ++ ",".intercalate (ps.map fun p => p.name ++ (if p.perRow then "[row]" else "")) ++ ")") (ps.all (·.tagged)) toAgg
   | .unboundLeaf _ => outOk
 
+def handleCoherent (g : Graph) (kind : String) (dev : Nat) (changed : String) (o : Outcome) : Verdict :=
+  match g.coherent.find? (·.kind == kind) with
+  | none => .unsupported ("coherent deviation " ++ kind ++ " is not declared in the check graph of " ++ g.proto)
+  | some c =>
+  let honest := o.parties.filter (·.1 != dev)
+  let aggPresent := o.agg != "-"
+  let site := "site=" ++ g.proto ++ "/coherent/" ++ kind
+  let sane := firstSome ((honest.map fun (i, cl) => classBad ("party-" ++ toString i ++ " " ++ site) dev cl) ++
+    [if aggPresent then classBad ("aggregator " ++ site) dev o.agg else none])
+  match sane with
+  | some v => v
+  | none =>
+  if o.out.startsWith "invalid" then .bad "bad-output-released" (o.out ++ " " ++ site) else
+  let aggRejects := aggPresent && o.agg != "ok" && o.agg != "none"
+  let senderStopped := (o.parties.any fun (i, cl) => i == dev && !isOk cl) && o.out == "none"
+  let rejected := (honest.any fun (_, cl) => !isOk cl) || aggRejects || senderStopped
+  if !rejected && changed == "0" then
+    (if o.out == "valid" then .ok else .bad "bad-output-released" ("accepted but out=" ++ o.out ++ " " ++ site))
+  else if !rejected then
+    .bad "accepted-coherent-deviation" ("no honest party rejected; expected one of " ++ ",".intercalate c.caughtBy ++ " " ++ site)
+  else if o.out != "none" && o.out != "valid" then .bad "bad-output-released" (o.out ++ " " ++ site)
+  else .ok
+
 def handle (op : String) (args : List String) (rhs : String) : Verdict :=
   match op, args with
   | "honest", [proto, _cfg, _ids] =>
@@ -167,6 +202,11 @@ def handle (op : String) (args : List String) (rhs : String) : Verdict :=
     | some g, some r, some s, some o => handleTamper g r s rcpt path op changed o
     | none, _, _, _ => .unsupported ("no check graph for " ++ proto)
     | _, _, _, _ => .unsupported "args"
+  | "coherent", [proto, _cfg, kind, dev, _pos, changed, _ids] =>
+    match graphOf proto, dev.toNat?, parseOutcome rhs with
+    | some g, some d, some o => handleCoherent g kind d changed o
+    | none, _, _ => .unsupported ("no check graph for " ++ proto)
+    | _, _, _ => .unsupported "args"
   | _, _ => .unsupported ("C04 op " ++ op)
 
 end BronVerif.Drive.C04
